@@ -58,17 +58,21 @@ pub mod auf {
             let mut y: u128 = kani::any();
             assert!(N < MAXC);
             let [i, j] = HINT[N];
-            if x == 0 {
-                y = 0; // f(0) = f(a ^ a) = 0
-            } else if i != NOH {
+            let mut done = false;
+            if i != NOH {
                 assert!(i < N);
                 if j == SAME {
-                    if IN[i] == x { y = OUT[i]; }
+                    if IN[i] == x { y = OUT[i]; done = true; }
                 } else {
                     assert!(j < N);
-                    if IN[i] ^ IN[j] == x { y = OUT[i] ^ OUT[j]; }
+                    if IN[i] ^ IN[j] == x {
+                        if IN[i] == IN[j] { kani::assume(OUT[i] == OUT[j]); } // equal arguments, equal results
+                        y = OUT[i] ^ OUT[j];
+                        done = true;
+                    }
                 }
             }
+            if !done && x == 0 { y = 0; } // f(0) = f(a ^ a) = 0
             IN[N] = x;
             OUT[N] = y;
             N += 1;
@@ -380,35 +384,45 @@ fn l_ref_roundtrip_rev() {
 // network on equal inputs are trivially equal on paper but expensive for a SAT solver (no structural sharing), so g is
 // replaced on BOTH sides by one uninterpreted function: the obligation then holds for every g, in particular bcref's.
 pub mod ruf {
-    pub const MAXC: usize = 150;
-    // one table for all block-valued functions, distinguished by tag; second argument zero when absent
-    pub static mut TAG: [u8; MAXC] = [0; MAXC];
-    pub static mut A: [u128; MAXC] = [0; MAXC];
-    pub static mut B: [u128; MAXC] = [0; MAXC];
-    pub static mut OUT: [u128; MAXC] = [0; MAXC];
-    pub static mut N: usize = 0;
-    #[allow(static_mut_refs)]
-    fn call(tag: u8, a: u128, b: u128) -> [u8; 16] {
-        unsafe {
-            let mut y: u128 = kani::any();
-            let mut found = false;
-            let mut i = 0;
-            while i < N {
-                if !found && TAG[i] == tag && A[i] == a && B[i] == b { y = OUT[i]; found = true; }
-                i += 1;
+    // One call log per function, each of at most 64 entries: CBMC keeps arrays of up to 64 elements field-sensitive
+    // (larger logs are an order of magnitude slower).
+    macro_rules! uf2 { ($name:ident) => {
+        pub mod $name {
+            pub const MAXC: usize = 64;
+            pub static mut A: [u128; MAXC] = [0; MAXC];
+            pub static mut B: [u128; MAXC] = [0; MAXC];
+            pub static mut OUT: [u128; MAXC] = [0; MAXC];
+            pub static mut N: usize = 0;
+            #[allow(static_mut_refs)]
+            pub fn call(a: u128, b: u128) -> [u8; 16] {
+                unsafe {
+                    let mut y: u128 = kani::any();
+                    let mut found = false;
+                    let mut i = 0;
+                    while i < N {
+                        if !found && A[i] == a && B[i] == b { y = OUT[i]; found = true; }
+                        i += 1;
+                    }
+                    assert!(N < MAXC);
+                    A[N] = a; B[N] = b; OUT[N] = y; N += 1;
+                    y.to_le_bytes()
+                }
             }
-            assert!(N < MAXC);
-            TAG[N] = tag; A[N] = a; B[N] = b; OUT[N] = y; N += 1;
-            y.to_le_bytes()
         }
-    }
+    }; }
+    uf2!(t_l);
+    uf2!(t_l_inv);
+    uf2!(t_lsx);
+    uf2!(t_x_linv_sinv);
+    uf2!(t_c);
+    uf2!(t_ell);
     fn w(a: &[u8; 16]) -> u128 { u128::from_le_bytes(*a) }
-    pub fn l(a: &[u8; 16]) -> [u8; 16] { call(1, w(a), 0) }
-    pub fn l_inv(a: &[u8; 16]) -> [u8; 16] { call(2, w(a), 0) }
-    pub fn lsx(k: &[u8; 16], a: &[u8; 16]) -> [u8; 16] { call(3, w(k), w(a)) }
-    pub fn x_linv_sinv(k: &[u8; 16], a: &[u8; 16]) -> [u8; 16] { call(4, w(k), w(a)) }
-    pub fn c(i: usize) -> [u8; 16] { call(5, i as u128, 0) }
-    pub fn ell(a: &[u8; 16]) -> u8 { call(6, w(a), 0)[0] }
+    pub fn l(a: &[u8; 16]) -> [u8; 16] { t_l::call(w(a), 0) }
+    pub fn l_inv(a: &[u8; 16]) -> [u8; 16] { t_l_inv::call(w(a), 0) }
+    pub fn lsx(k: &[u8; 16], a: &[u8; 16]) -> [u8; 16] { t_lsx::call(w(k), w(a)) }
+    pub fn x_linv_sinv(k: &[u8; 16], a: &[u8; 16]) -> [u8; 16] { t_x_linv_sinv::call(w(k), w(a)) }
+    pub fn c(i: usize) -> [u8; 16] { t_c::call(i as u128, 0) }
+    pub fn ell(a: &[u8; 16]) -> u8 { t_ell::call(w(a), 0)[0] }
 }
 
 /// Uninterpreted ADDITIVE INVERSE PAIR on blocks: fwd and bwd are mutually inverse bijections, both GF(2)-additive
